@@ -28,11 +28,20 @@ type errMarshaler struct{}
 
 func (errMarshaler) MarshalJSON() ([]byte, error) { return nil, errors.New("refusing to marshal") }
 
+// panicMarshaler's MarshalJSON panics (a nil dereference in user code, say).
+type panicMarshaler struct{ p *int }
+
+func (m panicMarshaler) MarshalJSON() ([]byte, error) { return []byte(string(rune(*m.p))), nil }
+
 type badMarshaler struct{}
 
 func (badMarshaler) MarshalJSON() ([]byte, error) { return []byte(`{"a":`), nil }
 
 type cyc struct{ Next *cyc }
+
+// MarshalPanics reports whether encoding the value panics inside the value's own
+// MarshalJSON (only generated where a script model accounts for it).
+func (v Val) MarshalPanics() bool { return v.Kind == "marshalpanic" }
 
 // Unmarshalable reports whether json.Marshal fails on the materialised value.
 func (v Val) Unmarshalable() bool {
@@ -70,6 +79,8 @@ func (v Val) Go() interface{} {
 		return errMarshaler{}
 	case "badjson":
 		return badMarshaler{}
+	case "marshalpanic":
+		return panicMarshaler{}
 	case "badraw":
 		return json.RawMessage(`{"a":`)
 	case "badraw2":
